@@ -39,7 +39,8 @@ func c18ErrClass(err error) string {
 }
 
 // ops: "W<k>"  "A<k>@<off>" ReadAt  "N" NewReader  "r<k>" Reader.Read  "S<off>" SeekTo  "V" IsValid
-//      "D" DataRange  "C" Close  "E" CloseWithError  "r*<k>x<n>" read with the reader until n bytes or error
+//
+//	"D" DataRange  "C" Close  "E" CloseWithError  "r*<k>x<n>" read with the reader until n bytes or error
 type c18Event struct {
 	Thread     int
 	Op         string
@@ -62,17 +63,17 @@ type c18Scenario struct {
 }
 
 type c18Run struct {
-	sc      c18Scenario
-	bl      *Backlog
-	readers map[int]*Reader
-	seq     int
-	events  []c18Event
-	wpos    uint64 // bytes accepted so far
-	closedAt int
+	sc         c18Scenario
+	bl         *Backlog
+	readers    map[int]*Reader
+	seq        int
+	events     []c18Event
+	wpos       uint64 // bytes accepted so far
+	closedAt   int
 	closeStart int
-	maxW    uint64
-	peek    bool // read the write position from the store (only when executions are serialised)
-	tmp     *os.File
+	maxW       uint64
+	peek       bool // read the write position from the store (only when executions are serialised)
+	tmp        *os.File
 }
 
 func c18New(sc c18Scenario) *c18Run {
